@@ -69,6 +69,15 @@ def run_pair(ctx, drv, scs, props, name, parallel=48, classify=None, what='TCP b
         if any(e.get('ev') == 'panic' for e in s):
             ctx.violation('%s: the stack panicked in scenario %s: %s' % (what, scs[i].get('tag'), [e for e in s if e.get('ev') == 'panic'][0].get('what')),
                           dict(kind='pair', scenario=scs[i]))
+    # a pinned ISS (hook H4) must be the one on the wire, otherwise the wrap scenarios silently test nothing
+    for i, s in enumerate(segs):
+        want = (scs[i].get('a') or {}).get('iss')
+        if want:
+            syn = [e for e in s if e.get('ev') == 'emit' and e.get('e') == 'a' and e.get('kind') == 'syn']
+            if syn and [syn[0].get('seqraw_hi'), syn[0].get('seqraw_lo')] != list(want):
+                raise vlib.Inconclusive('scenario %s: the pinned ISS %r is not the one in the SYN (%r, %r): hook H4 not effective' % (
+                    scs[i].get('tag'), want, syn[0].get('seqraw_hi'), syn[0].get('seqraw_lo')))
+    ctx.extra['pinned_iss_scenarios'] = ctx.extra.get('pinned_iss_scenarios', 0) + sum(1 for sc in scs if (sc.get('a') or {}).get('iss'))
     inconclusive = [i for i, s in enumerate(segs) if s[-1].get('ev') == 'end' and s[-1].get('why') in ('deadline', 'connect-timeout', 'accept-timeout')]
     ok_idx = [i for i in range(len(scs)) if i not in inconclusive and not any(e.get('ev') == 'panic' for e in segs[i])]
     tc = tcfg(props)
